@@ -212,6 +212,10 @@ class MetadataPdu(AbstractFileDirectiveBase):
         metadata_pdu.pdu_file_directive = FileDirectivePduBase.unpack(raw_packet=data)
         metadata_pdu.pdu_file_directive.verify_length_and_checksum(data)
         current_idx = metadata_pdu.pdu_file_directive.header_len
+        # The parameters end where the PDU ends, in front of the CRC16 if there is one.
+        end_of_params = metadata_pdu.pdu_file_directive.packet_len
+        if metadata_pdu.pdu_file_directive.pdu_conf.crc_flag == CrcFlag.WITH_CRC:
+            end_of_params -= 2
         min_expected_len = current_idx + 7
         if metadata_pdu.pdu_file_directive.pdu_conf.file_flag == LargeFileFlag.LARGE:
             min_expected_len += 4
@@ -230,12 +234,18 @@ class MetadataPdu(AbstractFileDirectiveBase):
             raw_packet=data, current_idx=current_idx
         )
         metadata_pdu.params = params
-        metadata_pdu._source_file_name_lv = CfdpLv.unpack(raw_bytes=data[current_idx:])
+        metadata_pdu._source_file_name_lv = CfdpLv.unpack(
+            raw_bytes=data[current_idx:end_of_params]
+        )
         current_idx += metadata_pdu._source_file_name_lv.packet_len
-        metadata_pdu._dest_file_name_lv = CfdpLv.unpack(raw_bytes=data[current_idx:])
+        metadata_pdu._dest_file_name_lv = CfdpLv.unpack(
+            raw_bytes=data[current_idx:end_of_params]
+        )
         current_idx += metadata_pdu._dest_file_name_lv.packet_len
-        if current_idx < len(data):
-            metadata_pdu._parse_options(raw_packet=data, start_idx=current_idx)
+        if current_idx < end_of_params:
+            metadata_pdu._parse_options(
+                raw_packet=data[:end_of_params], start_idx=current_idx
+            )
         return metadata_pdu
 
     def _parse_options(self, raw_packet: bytes, start_idx: int):
